@@ -145,7 +145,7 @@ def gen_str_body(rng, maxlen=12):
     for _ in range(rng.randrange(0, maxlen)):
         r = rng.random()
         if r < 0.35:
-            out += bytes([rng.choice(b"abcxyzABC019 _-+.,:;=/*[]{}'$#@!~\x7f")])
+            out += bytes([rng.choice(b"abcxyzABC019 _-+.,:;=/*[]{}'$#@!~\x7f<>/<")])
         elif r < 0.5:
             out += b"\\" + bytes([rng.choice(b"\"\\/bfnrt")])
         elif r < 0.62:
@@ -252,7 +252,13 @@ def gen_xdl(rng, depth=0, maxdepth=4):
     return c + cls + b"{" + body + rng.choice([b"", b",", b"\n", b" "]) + b"}"
 
 
-BOUNDARY = b"{}[]\"\\/*,:=-.eE09unt Y$\n\r\t\x01\x1f\x7f\x80\xff+xa_"
+BOUNDARY = b"{}[]\"\\/*,:=-.eE09unt Y$\n\r\t\x01\x1f\x7f\x80\xff+xa_<>#'"
+# spellings, inside a quoted string, of every byte the decoder (or the encoder of C05) treats specially: escapes, the comment openers
+# '/' '*' '#', markup bytes, structure bytes, separators, white space raw and escaped, control bytes, DEL, UTF-8 raw and as \\u
+STRING_UNITS = [b'\\"', b"\\\\", b"/", b"\\/", b"<", b">", b"*", b"#", b"{", b"}", b"[", b"]", b",", b":", b"=", b"'", b"\\n", b"\\t", b"\\r", b"\\b", b"\\f",
+                b"\n", b"\t", b"\\u0001", b"\x01", b"\\u002f", b"\\u003c", b" ", b"\x7f", b"n", b"u", b"$", b"-", b"\xc3\xa9", b"\\u00e9", b"\xf0\x9f\x98\x80", b"\x80"]
+COMMENTISH = [b"//", b"/*", b"*/", b"/* */", b"</", b"<\\/", b"<\\/*y*/", b"x<\\/*y*/nz", b"x</*y*/nz", b"<b>bold<\\/b>", b"<b>bold</b>", b"<\\/script>", b"\\//", b"\\/\\/",
+              b"\\/*", b"\\/*y*/n", b"\\/\\n", b"a//b\\nc", b"#c", b"\\/#", b"<!-- -->", b"http:\\/\\/a\\/b", b"\\u002f\\u002f", b"\\\\/", b"\\\\//", b"\\\\\\/"]
 
 
 def mutate(rng, t, other):
@@ -393,6 +399,18 @@ def gen(rng, tier):
               b"123456789", b"1234567890", b"-12345678", b"-123456789", b'"\\ud83d\\ude00"', b'{"":0}', b'{"a":{"a":{}}}', b"[[[[]]]]"]:
         docs.append(t)
         cases.append(ops_for(rng, t, 300, 300))
+    # all ordered pairs of string units (the meaning of a byte may depend on its neighbour: "\\/" then '*', "</", "//", backslash then
+    # quote ...) as string value and as key, JSON and XDL entry points; comment-/markup-like texts inside strings and keys
+    for a in STRING_UNITS:
+        for b in STRING_UNITS:
+            v = b'"' + a + b + b'"'
+            cases.append(["dec " + hexs(v), "xdec " + hexs(b"[" + v + b"]"), "dec " + hexs(b'{"x' + a + b + b'y":' + v + b"}")])
+    for c in COMMENTISH:
+        v = b'"' + c + b'"'
+        t = b'{"' + c + b'":[' + v + b',"a' + c + b'z"]}'
+        docs.append(t)
+        cases.append(ops_for(rng, t, 300, 300))
+        cases.append(ops_for(rng, b"{" + v + b"=" + v + b"}", allcuts, 10, xdl=True))
     for d in ([1, 2, 31, 100, 511, 512] if quick else [1, 2, 3, 31, 64, 100, 255, 256, 400, 511, 512, 513, 999, 1000, 1001, 1002, 3000]):
         t = gen_deep(rng, d)
         docs.append(t)
